@@ -28,4 +28,35 @@ def ofResult : PfResult → Except PfErr (Nat × Expr × List Char × List Char)
   | .syntaxError => .error .syntax
   | .valueError => .error .value
 
+/-! ## round 3: `misc.format_range` and `Checker.check_plurals` (`Generated/ChkPlurals.lean`, `tools/translate/chkplurals2lean.py`) -/
+
+/-- an element of a list that holds ints and strs (`format_range`'s `result`) -/
+inductive IntOrStr where
+  | int (i : Int)
+  | str (s : List Char)
+  deriving DecidableEq, Repr
+
+/-- `str(x)` -/
+def IntOrStr.toStr : IntOrStr → List Char
+  | .int i => intStr i
+  | .str s => s
+
+/-- what `check_plurals` does with a parsed plural expression `expr`: `expr(i)`, `expr.codomain()`, `expr.period()` -/
+structure ExprOps (E : Type) where
+  call : E → Int → Except I18n.Py.Exc Int
+  codomain : E → Except I18n.Py.Exc (Option (Int × Int))
+  period : E → Except I18n.Py.Exc (Option (Int × Int))
+  /-- `gettext.parse_plural_forms(s)` (strict): the number of forms and the expression object -/
+  parse : List Char → Except I18n.Py.Exc (Nat × E)
+
+/-- an exception of `gettext.parse_plural_forms` leaving `check_plurals` (the model does not tell the two apart) -/
+def pfExc : PfErr → I18n.Py.Exc
+  | .syntax => .ValueError
+  | .value => .ValueError
+
+/-- `f(x)` where the exceptions of `f` are `PfErr` -/
+def liftPf {α : Type} : Except PfErr α → Except I18n.Py.Exc α
+  | .ok a => .ok a
+  | .error e => .error (pfExc e)
+
 end I18n.CheckPlurals.Py
